@@ -233,6 +233,17 @@ class ReplDict(SyncObjConsumer):
         return self.__data
 
 
+def _valueKey(x):
+    """A sort key that depends on the value only: the same on every replica whatever the layout of its hash tables."""
+    if isinstance(x, (frozenset, set)):
+        return (type(x).__name__, sorted(_valueKey(m) for m in x))
+    if isinstance(x, tuple):
+        return (type(x).__name__, [_valueKey(m) for m in x])
+    if x is None:
+        return (type(x).__name__, 0)
+    return (type(x).__name__, x)
+
+
 class ReplSet(SyncObjConsumer):
     def __init__(self):
         """
@@ -279,8 +290,12 @@ class ReplSet(SyncObjConsumer):
         # Which element set.pop() yields depends on the layout of the hash table, which differs between
         # replicas with equal contents (built through the log / restored from a snapshot / other hash seed).
         # Every replica has to remove the same one: take the first by type name and repr.
-        # (not the natural order: it is partial for frozensets, undefined for NaN and mixed types)
-        item = min(self.__data, key=lambda x: (type(x).__name__, repr(x)))
+        # (not the natural order: it is partial for frozensets and undefined for mixed types; not repr() alone either:
+        # for a frozenset it lists the members in the order of that frozenset's own table)
+        try:
+            item = min(self.__data, key=_valueKey)
+        except TypeError:
+            item = min(self.__data, key=lambda x: (type(x).__name__, repr(x)))
         self.__data.remove(item)
         return item
 
